@@ -315,13 +315,11 @@ def skip_rule(ctx):
         fl = fn_label(b)
         shape = None
         # S1: slice advance
-        gets = [(bb, t) for bb, t in b.calls() if call_matches(t, ['slice::<impl [T]>::get'])]
-        if len(gets) == 1:
-            bb, t = gets[0]
-            ro = origin(b, t['args'][1])
-            none_err, some_bb = option_none_errs(b, t)
-            if ro.params() == {2} and 'try_into' in ro.flags and not ro.has_arith() and none_err and any(a[0] == 'agg' and a[1].endswith('RangeFrom') for a in ro.atoms):
-                shape = 'slice advance by get(n..), None => Err'
+        sh = slice_advance_shape(b)
+        if sh == 'get':
+            shape = 'slice advance by get(n..), None => Err'
+        elif sh == 'cmp':
+            shape = 'slice advance by &slice[n..] under n <= len (n > len => Err)'
         # S2: copy through take(n) and compare
         cp = [(bb, t) for bb, t in b.calls() if (t.get('callee') or '') in ('std::io::copy', 'std::io::copy::copy')]
         tk = [(bb, t) for bb, t in b.calls() if (t.get('callee') or '') == 'std::io::Read::take']
